@@ -96,6 +96,17 @@ PROFILES = {
                              'key_rows_by', 'filter_entries', 'stop'],
                  mexprs=['rbig', 'est'], names=['x', 'y', 'e', 'g'], gexprs=['py_l'], ns=[3], fieldidx=[-1],
                  hows=['field', 'expr']),
+    # lookups (joins): Table.index / table[...] / index_globals / MatrixTable.index_rows|cols|entries / mt.rows()[...]
+    # used inside annotate / select / filter (tables) and annotate_rows / annotate_cols / annotate_entries (matrix tables)
+    'join': dict(joins=True, table_ops=['annotate', 'key_by', 'key_by_expr', 'filter', 'stop'], row_exprs=['big', 'st'],
+                 names=['x', 'y', 'e', 'g'], ns=[3], fieldidx=[-1], hows=['field', 'expr'],
+                 matrix_ops=['annotate_rows', 'annotate_entries', 'key_rows_by', 'stop'], mexprs=['rbig', 'est']),
+    'joincore': dict(joins=True, table_ops=['annotate', 'key_by', 'filter', 'stop'], row_exprs=['big'],
+                     names=['x', 'y', 'e', 'g'], ns=[3], fieldidx=[-1], hows=['field'],
+                     matrix_ops=['annotate_rows', 'key_rows_by', 'stop'], mexprs=['rbig'],
+                     jtables=['point', 'two', 'interval'], jix=['key', 'pt', 'struct', 'iv'], jproj=['whole', 'field'],
+                     join_ops=['annotate_join', 'select_join', 'annotate_rows_join', 'annotate_cols_join',
+                               'annotate_entries_join']),
 }
 PF = {}
 
@@ -243,6 +254,48 @@ def apply_op(op, e, choose):
 
 
 # ---- the checks ---------------------------------------------------------------------------------------------
+class _fresh_toplevel_refs:
+    """Deep recomputation context.  A `Ref row|global|va|sa|g` object (TopLevelReference) is shared by every expression
+    of a table and caches the row type it had when the table was made; when a lookup (Join) is resolved the same object
+    is re-used under a join node whose row has an extra uid field, so its *cache* is stale by construction while the
+    text `(Ref row)` carries no type at all.  The cache of these reference nodes is therefore not part of the claim: it
+    is cleared for the duration of the deep recomputation (so the reference takes its type from the environment, as
+    the engine does) and restored afterwards.  Every other node keeps its cached type and is compared."""
+
+    def __init__(self, root):
+        self.saved = []
+        seen = set()
+        stack = [root]
+        while stack:
+            n = stack.pop()
+            if id(n) in seen or not isinstance(n, ir.BaseIR):
+                continue
+            seen.add(id(n))
+            if isinstance(n, ir.TopLevelReference):
+                self.saved.append((n, n._type))
+            stack.extend(c for c in n.children if isinstance(c, ir.BaseIR))
+
+    def __enter__(self):
+        # the same reference object is visited under several environments within ONE deep pass (below and above the
+        # join node), so clearing the cache once is not enough: for reference nodes only, IR.compute_type's
+        # cache comparison is switched off (their type is whatever the environment says at each visit)
+        def compute_type(node, env, agg_env, deep_typecheck):
+            node._type = node._compute_type(env, agg_env, deep_typecheck)
+        self._orig = ir.TopLevelReference.__dict__.get('compute_type')
+        ir.TopLevelReference.compute_type = compute_type
+        for n, _ in self.saved:
+            n._type = None
+
+    def __exit__(self, *exc):
+        if self._orig is None:
+            del ir.TopLevelReference.compute_type
+        else:
+            ir.TopLevelReference.compute_type = self._orig
+        for n, t in self.saved:
+            n._type = t
+        return False
+
+
 def check_expr(e, env=None, text_check=None):
     """The front end's reported type agrees with the type implied by the IR it holds."""
     if not isinstance(e, Expression):
@@ -251,7 +304,8 @@ def check_expr(e, env=None, text_check=None):
     if e.dtype != x.typ:
         raise Violation('dtype-vs-ir-typ', f'dtype {e.dtype} but _ir.typ {x.typ}: {x}')
     try:
-        x.compute_type(dict(env or {}), None, deep_typecheck=True)
+        with _fresh_toplevel_refs(x):
+            x.compute_type(dict(env or {}), None, deep_typecheck=True)
     except AssertionError as a:
         raise Violation('ir-deep-typecheck', f'deep recomputation of IR types fails ({a}) for {x}')
     if e.dtype != x.typ:
@@ -271,7 +325,8 @@ def check_table(t, text_check=None):
     if t.key.dtype != tt.key_type:
         raise Violation('table-key-type', f'key.dtype {t.key.dtype} but TableType key_type {tt.key_type}')
     try:
-        t._tir.compute_type(deep_typecheck=True)
+        with _fresh_toplevel_refs(t._tir):
+            t._tir.compute_type(deep_typecheck=True)
     except AssertionError as a:
         raise Violation('tir-deep-typecheck', f'deep recomputation of TableIR types fails ({a})')
     tt = t._tir.typ
@@ -295,7 +350,8 @@ def check_matrix(mt, text_check=None):
         if a != b:
             raise Violation(f'matrix-{what}', f'{what}: front end {a} but MatrixType {b}')
     try:
-        mt._mir.compute_type(deep_typecheck=True)
+        with _fresh_toplevel_refs(mt._mir):
+            mt._mir.compute_type(deep_typecheck=True)
     except AssertionError as a:
         raise Violation('mir-deep-typecheck', f'deep recomputation of MatrixIR types fails ({a})')
     mtyp = mt._mir.typ
@@ -336,6 +392,108 @@ def run_expr_program(choose, k, text_check=None):
     return trace, 'done'
 
 
+# ---- lookups (joins) --------------------------------------------------------------------------------------
+def _values():
+    r = hl.utils.range_table(10)
+    return r.annotate(v=r.idx * 2, w='x')
+
+
+def _int32_of(e):
+    """an int32 expression with the same indices as e, whatever e's type"""
+    if e.dtype == tint32:
+        return e
+    if is_numeric(e.dtype):
+        return hl.int32(e)
+    return hl.len(hl.str(e))
+
+
+JTABLES = ['point', 'two', 'interval', 'interval2', 'strkey', 'mtrows', 'idxrows', 'idxcols', 'idxentries', 'globals']
+JIX = ['key', 'pt', 'two', 'struct', 'tuple', 'iv', 'i64', 'str']
+JPROJ = ['whole', 'field', 'len']
+JOIN_TABLE_OPS = ['annotate_join', 'select_join', 'filter_join', 'annotate_globals_join']
+JOIN_MATRIX_OPS = ['annotate_rows_join', 'annotate_cols_join', 'annotate_entries_join', 'filter_rows_join']
+
+
+def make_lookup(choose, key_expr):
+    """A lookup expression indexed like `key_expr` (a field of the table / matrix table being annotated)."""
+    kind = choose('jtable', _f('jtables', JTABLES))
+    base = _int32_of(key_expr)
+    if kind == 'globals':
+        g = _values().annotate_globals(gg=hl.literal([1, 1 << 31]), hh=1.5).index_globals()
+        return g if choose('jproj', _f('jproj', JPROJ)) == 'whole' else g.gg
+    ix = choose('jix', _f('jix', JIX))
+    exprs = {'key': lambda: (key_expr,), 'pt': lambda: (base + 1,), 'two': lambda: (key_expr, base * 2),
+             'struct': lambda: (hl.struct(a=base, b=base * 2),), 'tuple': lambda: (hl.tuple([base, base * 2]),),
+             'iv': lambda: (hl.interval(base, base + 3),), 'i64': lambda: (hl.int64(base),),
+             'str': lambda: (hl.str(base),)}[ix]()
+    if kind in ('idxrows', 'idxcols', 'idxentries'):
+        mt = hl.utils.range_matrix_table(4, 3)
+        mt = mt.annotate_rows(q=mt.row_idx * 1.5).annotate_cols(c=hl.str(mt.col_idx)).annotate_entries(e=mt.row_idx + mt.col_idx)
+        e = {'idxrows': mt.index_rows, 'idxcols': mt.index_cols, 'idxentries': mt.index_entries}[kind](*exprs)
+    else:
+        v = _values()
+        if kind == 'two':
+            v = v.key_by('idx', 'v')
+        elif kind == 'interval':
+            v = v.key_by(iv=hl.interval(v.idx, v.idx + 3)).drop('idx')
+        elif kind == 'interval2':
+            v = v.key_by(iv=hl.interval(v.idx, v.idx + 3), k2=v.v).drop('idx')
+        elif kind == 'strkey':
+            v = v.key_by(s=hl.str(v.idx))
+        elif kind == 'mtrows':
+            mt = hl.utils.range_matrix_table(4, 3)
+            v = mt.annotate_rows(v=mt.row_idx * 2, w=[mt.row_idx]).rows()
+        how = choose('jhow', _f('jhow', ['getitem', 'index', 'all']))
+        if how == 'getitem':
+            e = v[exprs if len(exprs) > 1 else exprs[0]]
+        else:
+            e = v.index(*exprs, all_matches=(how == 'all'))
+    proj = choose('jproj', _f('jproj', JPROJ))
+    if proj == 'field':
+        return e[list(e.dtype)[0]] if isinstance(e.dtype, tstruct) else e[list(e.dtype.element_type)[0]]
+    if proj == 'len':
+        return hl.len(e) if isinstance(e.dtype, tarray) else hl.is_defined(e)
+    return e
+
+
+def apply_table_join_op(op, t, choose):
+    key_expr = list(t.key.values())[0] if len(t.key) > 0 else t[list(t.row)[0]]
+    look = make_lookup(choose, key_expr)
+    if op == 'annotate_join':
+        return t.annotate(m=look)
+    if op == 'select_join':
+        return t.select(m=look)
+    if op == 'filter_join':
+        return t.filter(hl.is_defined(look))
+    if op == 'annotate_globals_join':
+        # only scalar / global expressions are legal here: a row-indexed lookup must be rejected by the front end
+        return t.annotate_globals(gm=look)
+    raise ValueError(op)
+
+
+def apply_matrix_join_op(op, mt, choose):
+    rk = list(mt.row_key.values())[0] if len(mt.row_key) > 0 else mt[list(mt.row)[0]]
+    ck = list(mt.col_key.values())[0] if len(mt.col_key) > 0 else mt[list(mt.col)[0]]
+    if op == 'annotate_rows_join':
+        return mt.annotate_rows(m=make_lookup(choose, rk))
+    if op == 'annotate_cols_join':
+        return mt.annotate_cols(m=make_lookup(choose, ck))
+    if op == 'annotate_entries_join':
+        axis = choose('jaxis', ['row', 'col'])
+        return mt.annotate_entries(m=make_lookup(choose, rk if axis == 'row' else ck))
+    if op == 'filter_rows_join':
+        return mt.filter_rows(hl.is_defined(make_lookup(choose, rk)))
+    raise ValueError(op)
+
+
+def _table_ops():
+    return _f('table_ops', TABLE_OPS) + (_f('join_ops', JOIN_TABLE_OPS) if PF.get('joins') else [])
+
+
+def _matrix_ops():
+    return _f('matrix_ops', MATRIX_OPS) + (_f('join_ops', JOIN_MATRIX_OPS) if PF.get('joins') else [])
+
+
 # ---- table programs ---------------------------------------------------------------------------------------
 def row_exprs(t):
     """Candidate row-indexed expressions over the current table (built lazily; may be rejected)."""
@@ -357,6 +515,8 @@ TABLE_OPS = ['annotate', 'annotate2', 'select', 'select_expr', 'key_by', 'key_by
 
 
 def apply_table_op(op, t, choose):
+    if op in JOIN_TABLE_OPS:
+        return apply_table_join_op(op, t, choose)
     rx = row_exprs(t)
     names = list(t.row)
     if op == 'annotate':
@@ -408,7 +568,7 @@ def run_table_program(choose, k, text_check=None):
     trace.append(('range_table', (), str(t.row.dtype)))
     check_table(t, text_check)
     for step in range(k):
-        op = choose(f'op{step}', _f('table_ops', TABLE_OPS))
+        op = choose(f'op{step}', _table_ops())
         if op == 'stop':
             break
         sub = []
@@ -448,6 +608,8 @@ def mexprs(mt, axis):
 
 
 def apply_matrix_op(op, mt, choose):
+    if op in JOIN_MATRIX_OPS:
+        return apply_matrix_join_op(op, mt, choose)
     if op == 'annotate_rows':
         ex = mexprs(mt, 'row')
         return mt.annotate_rows(**{choose('name', _f('names', ['x', list(mt.row)[-1]])): ex[choose('expr', _f('mexprs', ex))]()})
@@ -509,9 +671,9 @@ def run_matrix_program(choose, k, text_check=None):
     cur = mt
     for step in range(k):
         if not isinstance(cur, hl.MatrixTable):
-            ops = _f('table_ops', TABLE_OPS)
+            ops = _table_ops()
         else:
-            ops = _f('matrix_ops', MATRIX_OPS)
+            ops = _matrix_ops()
         op = choose(f'op{step}', ops)
         if op == 'stop':
             break
